@@ -514,25 +514,6 @@ theorem foldl_modify_not_getElem? (idx : List Nat) (l : Bits) (i : Nat) :
 
 /-! ### the `range` fast path of `set` -/
 
-theorem setRangeAsSlice_false_iff (l : Bits) (a b c : Int) (hc : c ≠ 0) :
-    setRangeAsSlice l a b c = false ↔
-      ((∀ p ∈ Py.rangeList a b c, PyL.normIdx l.length p ≠ none) ∧
-       PyL.slicePositions (some a) (some b) c l.length = (Py.rangeList a b c).filterMap (PyL.normIdx l.length)) := by
-  unfold setRangeAsSlice
-  have h1 : (c != 0) = true := by simpa using hc
-  rw [h1, Bool.true_and, Bool.not_eq_false', Bool.and_eq_true, List.all_eq_true, beq_iff_eq]
-  constructor
-  · rintro ⟨h2, h3⟩
-    refine ⟨fun p hp hn => ?_, h3⟩
-    have := h2 p hp
-    rw [hn] at this
-    simp at this
-  · rintro ⟨h2, h3⟩
-    refine ⟨fun p hp => ?_, h3⟩
-    cases hh : PyL.normIdx l.length p with
-    | none => exact absurd hh (h2 p hp)
-    | some j => rfl
-
 theorem alg_set_range_zero (l : Bits) (v : Bool) (a b : Int) :
     Alg.set l v (.range a b 0) = ⟨.error .value, l⟩ := by
   simp [Alg.set]
@@ -541,67 +522,157 @@ theorem spec_set_range_zero (l : Bits) (v : Bool) (a b : Int) :
     Spec.set l v (.range a b 0) = ⟨.error .value, l⟩ := by
   simp [Spec.set, Spec.positions]
 
-theorem alg_set_range (l : Bits) (v : Bool) (a b c : Int) (hc : c ≠ 0) :
-    Alg.set l v (.range a b c) =
-      ⟨.ok .none, (PyL.slicePositions (some a) (some b) c l.length).foldl (fun acc i => acc.set i v) l⟩ := by
-  simp [Alg.set, hc, Alg.setRange, PyL.setSliceScalar, atomic]
-
 theorem spec_set_range (l : Bits) (v : Bool) (a b c : Int) (hc : c ≠ 0) :
     Spec.set l v (.range a b c) = prefixOutcome l.length (fun acc j => acc.set j v) l (Py.rangeList a b c) := by
   rw [← applyPrefix_eq]
   simp [Spec.set, Spec.positions, hc]
 
-theorem set_range_eq (l : Bits) (v : Bool) (a b c : Int) (h : setRangeAsSlice l a b c = false) :
+/-- The elements of a non-empty `range(a, b, c)`: first `a`, last `a + (m-1)·c`. -/
+theorem rangeList_succ (a c : Int) (m : Nat) :
+    ((List.range (m + 1)).map fun (k : Nat) => a + (k : Int) * c).head? = some a ∧
+    ((List.range (m + 1)).map fun (k : Nat) => a + (k : Int) * c).getLast? = some (a + (m : Int) * c) := by
+  constructor
+  · rw [List.range_succ_eq_map]
+    simp
+  · rw [List.range_succ, List.map_append]
+    simp
+
+theorem between (a c : Int) (m k : Nat) (hk : k ≤ m) (n : Int)
+    (h0 : 0 ≤ a ∧ a < n) (h1 : 0 ≤ a + (m : Int) * c ∧ a + (m : Int) * c < n) :
+    0 ≤ a + (k : Int) * c ∧ a + (k : Int) * c < n := by
+  by_cases hc : 0 ≤ c
+  · have e1 : 0 ≤ (k : Int) * c := Int.mul_nonneg (by omega) hc
+    have e2 : (k : Int) * c ≤ (m : Int) * c := Int.mul_le_mul_of_nonneg_right (by omega) hc
+    omega
+  · have hc' : 0 ≤ -c := by omega
+    have e1 : 0 ≤ (k : Int) * (-c) := Int.mul_nonneg (by omega) hc'
+    have e2 : (k : Int) * (-c) ≤ (m : Int) * (-c) := Int.mul_le_mul_of_nonneg_right (by omega) hc'
+    have e3 : (k : Int) * (-c) = -((k : Int) * c) := by ring
+    have e4 : (m : Int) * (-c) = -((m : Int) * c) := by ring
+    omega
+
+/-- The slice the fast path writes selects exactly the positions of the range. -/
+theorem fast_positions (n : Nat) (a c : Int) (m : Nat) (hc : c ≠ 0)
+    (h0 : 0 ≤ a ∧ a < (n : Int)) (h1 : 0 ≤ a + (m : Int) * c ∧ a + (m : Int) * c < (n : Int)) :
+    PyL.slicePositions (some a)
+      (if c > 0 then some (a + (m : Int) * c + 1) else if a + (m : Int) * c > 0 then some (a + (m : Int) * c - 1) else none)
+      c n = (List.range (m + 1)).map fun (k : Nat) => (a + (k : Int) * c).toNat := by
+  rw [Core.slicePositions_eq]
+  by_cases hpos : c > 0
+  · rw [if_pos hpos]
+    have hsi : Py.sliceIndices (some a) (some (a + (m : Int) * c + 1)) c n = (a, a + (m : Int) * c + 1, c) := by
+      have h1' : ¬ a < 0 := by omega
+      have h2' : ¬ (a + (m : Int) * c + 1 < 0) := by omega
+      have h3' : ¬ c < 0 := by omega
+      simp only [Py.sliceIndices, h1', h2', h3', if_false]
+      congr 1
+      · omega
+      · congr 1; omega
+    rw [hsi]
+    simp only
+    have hm : 0 ≤ (m : Int) * c := Int.mul_nonneg (by omega) (by omega)
+    have hlen : Py.rangeLen a (a + (m : Int) * c + 1) c = m + 1 := by
+      unfold Py.rangeLen
+      rw [if_pos hpos, if_pos (by omega)]
+      have : a + (m : Int) * c + 1 - a - 1 = (m : Int) * c := by ring
+      rw [this, Int.mul_ediv_cancel _ (by omega)]
+      omega
+    rw [hlen]
+  · rw [if_neg hpos]
+    have hneg : c < 0 := by omega
+    have hsi : Py.sliceIndices (some a)
+        (if a + (m : Int) * c > 0 then some (a + (m : Int) * c - 1) else none) c n = (a, a + (m : Int) * c - 1, c) := by
+      have h1' : ¬ a < 0 := by omega
+      by_cases hl : a + (m : Int) * c > 0
+      · rw [if_pos hl]
+        have h2' : ¬ (a + (m : Int) * c - 1 < 0) := by omega
+        simp only [Py.sliceIndices, h1', h2', hneg, if_true, if_false]
+        congr 1
+        · omega
+        · congr 1; omega
+      · rw [if_neg hl]
+        simp only [Py.sliceIndices, h1', hneg, if_true, if_false]
+        congr 1
+        · omega
+        · congr 1; omega
+    rw [hsi]
+    simp only
+    have hm : 0 ≤ (m : Int) * (-c) := Int.mul_nonneg (by omega) (by omega)
+    have hmc : (m : Int) * (-c) = -((m : Int) * c) := by ring
+    have hlen : Py.rangeLen a (a + (m : Int) * c - 1) c = m + 1 := by
+      unfold Py.rangeLen
+      rw [if_neg (by omega), if_pos (by omega)]
+      have : a - (a + (m : Int) * c - 1) - 1 = (m : Int) * (-c) := by ring
+      rw [this, Int.mul_ediv_cancel _ (by omega)]
+      omega
+    rw [hlen]
+
+theorem set_range_eq (l : Bits) (v : Bool) (a b c : Int) :
     Alg.set l v (.range a b c) = Spec.set l v (.range a b c) := by
   by_cases hc : c = 0
   · subst hc
     rw [alg_set_range_zero, spec_set_range_zero]
-  · obtain ⟨h1, h2⟩ := (setRangeAsSlice_false_iff l a b c hc).mp h
-    rw [alg_set_range l v a b c hc, spec_set_range l v a b c hc, prefixOutcome_valid _ _ _ _ h1, h2]
+  rw [spec_set_range l v a b c hc]
+  unfold Alg.set
+  simp only
+  rw [if_neg hc]
+  unfold Py.rangeList
+  cases hm : Py.rangeLen a b c with
+  | zero =>
+    simp only [List.range_zero, List.map_nil, List.head?_nil]
+    exact setLoop_eq v l.length [] l rfl
+  | succ m =>
+    obtain ⟨hh, hl⟩ := rangeList_succ a c m
+    rw [hh, hl]
+    simp only
+    split
+    · rename_i hcond
+      have h0 : 0 ≤ a ∧ a < (l.length : Int) := ⟨hcond.1, hcond.2.1⟩
+      have h1 : 0 ≤ a + (m : Int) * c ∧ a + (m : Int) * c < (l.length : Int) := ⟨hcond.2.2.1, hcond.2.2.2⟩
+      have hvalid : ∀ p ∈ (List.range (m + 1)).map (fun (k : Nat) => a + (k : Int) * c),
+          PyL.normIdx l.length p ≠ none := by
+        intro p hp hn
+        rw [List.mem_map] at hp
+        obtain ⟨k, hk, rfl⟩ := hp
+        rw [List.mem_range] at hk
+        have := between a c m k (by omega) _ h0 h1
+        rw [Core.normIdx_none_iff'] at hn
+        omega
+      rw [prefixOutcome_valid _ _ _ _ hvalid]
+      have hfm : ((List.range (m + 1)).map (fun (k : Nat) => a + (k : Int) * c)).filterMap (PyL.normIdx l.length) =
+          (List.range (m + 1)).map fun (k : Nat) => (a + (k : Int) * c).toNat := by
+        rw [List.filterMap_map]
+        rw [← List.filterMap_eq_map]
+        apply List.filterMap_congr
+        intro k hk
+        rw [List.mem_range] at hk
+        have := between a c m k (by omega) _ h0 h1
+        simp only [Function.comp]
+        rw [Core.normIdx_some_iff']
+        left
+        omega
+      rw [hfm, ← fast_positions l.length a c m hc h0 h1]
+      unfold Alg.setRangeFast PyL.setSliceScalar
+      by_cases hpos : c > 0
+      · simp [hpos, hc, atomic]
+      · simp only [hpos, if_false, Option.getD_some, hc, atomic]
+    · exact setLoop_eq v l.length _ l rfl
 
-theorem setRangeAsSlice_nonneg (l : Bits) (a b c : Int) (ha : 0 ≤ a) (hb0 : 0 ≤ b) (hc : 0 < c)
-    (hb : b ≤ (l.length : Int)) : setRangeAsSlice l a b c = false := by
-  rw [setRangeAsSlice_false_iff l a b c (by omega)]
-  have hmem : ∀ p ∈ Py.rangeList a b c, 0 ≤ p ∧ p < (l.length : Int) := by
-    intro p hp
+/-- `s[a:b:c] = 0 | 1` through `set(v, range(*key.indices(len)))`: every selected position is set. -/
+theorem alg_set_slice_range (l : Bits) (v : Bool) (a b : Option Int) (st : Int) (hst : st ≠ 0) :
+    Alg.set l v (.range (Py.sliceIndices a b st l.length).1 (Py.sliceIndices a b st l.length).2.1 st) =
+      ⟨.ok .none, (PyL.slicePositions a b st l.length).foldl (fun acc i => acc.set i v) l⟩ := by
+  rw [set_range_eq, spec_set_range _ _ _ _ _ hst]
+  have hvalid : ∀ p ∈ Py.rangeList (Py.sliceIndices a b st l.length).1 (Py.sliceIndices a b st l.length).2.1 st,
+      PyL.normIdx l.length p ≠ none := by
+    intro p hp hn
     unfold Py.rangeList at hp
     rw [List.mem_map] at hp
     obtain ⟨k, hk, rfl⟩ := hp
     rw [List.mem_range] at hk
-    have := C01.rangeLen_pos_bounds a b c hc k hk
+    have := C01.sliceIndices_bounds a b st hst l.length k hk
+    rw [Core.normIdx_none_iff'] at hn
     omega
-  refine ⟨fun p hp hn => ?_, ?_⟩
-  · rw [Core.normIdx_none_iff'] at hn
-    have := hmem p hp
-    omega
-  · have hfm : (Py.rangeList a b c).filterMap (PyL.normIdx l.length) = (Py.rangeList a b c).map Int.toNat := by
-      rw [← List.filterMap_eq_map]
-      apply List.filterMap_congr
-      intro p hp
-      have := hmem p hp
-      simp only [Function.comp]
-      rw [Core.normIdx_some_iff']
-      left
-      omega
-    rw [hfm]
-    unfold PyL.slicePositions
-    have hsi : Py.sliceIndices (some a) (some b) c l.length = (min a (l.length : Int), b, c) := by
-      have h1 : ¬ a < 0 := by omega
-      have h2 : ¬ b < 0 := by omega
-      have h3 : ¬ c < 0 := by omega
-      simp only [Py.sliceIndices, h1, h2, h3, if_false]
-      congr 2
-      omega
-    rw [hsi]
-    simp only
-    by_cases hle : a ≤ (l.length : Int)
-    · rw [min_eq_left hle]
-    · have e1 : Py.rangeLen (min a (l.length : Int)) b c = 0 := by
-        unfold Py.rangeLen
-        rw [if_pos hc, if_neg (by omega)]
-      have e2 : Py.rangeLen a b c = 0 := by
-        unfold Py.rangeLen
-        rw [if_pos hc, if_neg (by omega)]
-      simp [Py.rangeList, e1, e2]
+  rw [prefixOutcome_valid _ _ _ _ hvalid, Core.rangeList_filterMap_normIdx a b st hst]
 
 end BM.C03.Range
